@@ -1,6 +1,7 @@
 package core
 
 import (
+	"fmt"
 	"go/ast"
 	"go/token"
 	"go/types"
@@ -167,16 +168,24 @@ func (c *Ctx) Through(e ast.Expr) ast.Expr {
 			return e
 		}
 		var bound ast.Expr
-		n := 0
+		n, same := 0, true
 		for _, b := range root.binds {
 			for j, l := range b.Lhs {
 				if lid, ok := l.(*ast.Ident); ok && c.Info.Defs[lid] == o {
+					// several call sites: followed only when all bind the same variable
+					if n > 0 {
+						a, aok := ast.Unparen(bound).(*ast.Ident)
+						bb, bok := ast.Unparen(b.Rhs[j]).(*ast.Ident)
+						if !aok || !bok || c.Info.ObjectOf(a) != c.Info.ObjectOf(bb) {
+							same = false
+						}
+					}
 					bound = b.Rhs[j]
 					n++
 				}
 			}
 		}
-		if n != 1 {
+		if n == 0 || !same {
 			return e
 		}
 		e = ast.Unparen(bound)
@@ -376,8 +385,9 @@ func CountsOver(p ExprPred, start int64) func(c *Ctx, s ast.Stmt) bool {
 // variable is the given call result (other definitions may exist).
 func MayBeFromCall(idx int, callees ...string) ExprPred {
 	ns := Names(callees...)
-	return func(c *Ctx, e ast.Expr) bool {
-		e = ast.Unparen(e)
+	var rec func(c *Ctx, e ast.Expr, depth int) bool
+	rec = func(c *Ctx, e ast.Expr, depth int) bool {
+		e = c.Through(e)
 		if call, ok := e.(*ast.CallExpr); ok {
 			return ns.Has(Callee(c.Info, call))
 		}
@@ -389,12 +399,16 @@ func MayBeFromCall(idx int, callees ...string) ExprPred {
 		if o == nil {
 			return false
 		}
-		for _, d := range c.DefsOf(o) {
+		for _, d := range LiveDefs(c.DefsOf(o)) {
 			if d.Rhs == nil {
 				continue
 			}
 			call, ok := ast.Unparen(d.Rhs).(*ast.CallExpr)
 			if !ok || !ns.Has(Callee(c.Info, call)) {
+				// a plain copy of a variable that may hold the call result
+				if src, isId := ast.Unparen(d.Rhs).(*ast.Ident); isId && d.N == 1 && depth > 0 && c.Info.ObjectOf(src) != o && rec(c, src, depth-1) {
+					return true
+				}
 				continue
 			}
 			want := idx
@@ -407,6 +421,7 @@ func MayBeFromCall(idx int, callees ...string) ExprPred {
 		}
 		return false
 	}
+	return func(c *Ctx, e ast.Expr) bool { return rec(c, e, 3) }
 }
 
 // DerivedFrom holds when the expression mentions q directly or through local
@@ -489,4 +504,43 @@ func Origin(c *Ctx, e ast.Expr) ast.Expr {
 		e = src
 	}
 	return e
+}
+
+// ElemOf recognises an element of a collection satisfying p: `X[i]`, the value
+// variable of `for _, v := range X`, or a local defined once as one of these.
+// id identifies which element (the canonical index, or the range statement),
+// so that two expressions can be tested for denoting the same element.
+func ElemOf(c *Ctx, e ast.Expr, p ExprPred) (ok bool, id string) {
+	for depth := 0; depth < 3; depth++ {
+		e = c.Through(e)
+		switch x := e.(type) {
+		case *ast.IndexExpr:
+			if p(c, x.X) {
+				return true, "idx:" + CanonExpr(c, x.Index) + "@" + CanonExpr(c, x.X)
+			}
+			return false, ""
+		case *ast.Ident:
+			o := c.Info.ObjectOf(x)
+			if o == nil {
+				return false, ""
+			}
+			defs := LiveDefs(c.DefsOf(o))
+			if len(defs) != 1 {
+				return false, ""
+			}
+			if rs, isRange := defs[0].Stmt.(*ast.RangeStmt); isRange && defs[0].Rhs == nil {
+				if defs[0].Idx == 1 && p(c, rs.X) {
+					return true, fmt.Sprintf("range:%d@%s", rs.Pos(), CanonExpr(c, rs.X))
+				}
+				return false, ""
+			}
+			if defs[0].Rhs == nil || defs[0].N != 1 {
+				return false, ""
+			}
+			e = defs[0].Rhs
+		default:
+			return false, ""
+		}
+	}
+	return false, ""
 }
